@@ -138,6 +138,11 @@ def ceq(a, b):
     if isinstance(a, DecStr) or isinstance(b, DecStr):
         if isinstance(a, DecStr) and isinstance(b, DecStr):
             return z3.simplify(a.t == b.t)
+        other = b if isinstance(a, DecStr) else a
+        if isinstance(other, int) and other not in _DECCHARS:
+            # a decimal rendering never contains this character: for
+            # searching separators the atom is a non-matching element
+            return False
         raise Unsupported('decimal atom compared with a character')
     sa, sb = is_sym(a), is_sym(b)
     if not sa and not sb:
@@ -159,6 +164,9 @@ def ceq(a, b):
     if a.name is not None and a.name == b.name and a.m == b.m:
         return True
     return a.term() == b.term()
+
+
+_DECCHARS = frozenset(b'0123456789-')
 
 
 def _br(t):
